@@ -1046,6 +1046,7 @@ def reward_formula(val, U, m):
 
 
 def run(ctx, chk):
+    shared.rule_mutable_defaults(ctx, chk, "C15.0:defaults", shared.GENERATOR_MODULES)      # a call must not depend on the calls made before it
     r1_ranges(ctx, chk)
     r2_order(ctx, chk)
     parse_args_source(ctx, chk, "C15.2")
